@@ -11,6 +11,8 @@ namespace Abmarl
 inductive StateComp where
   | position (kind : PKind) (o : PlaceOpts)    -- PositionState / TargetBarriersFree… / MazePlacementState
   | health | ammo | orient
+  | healthClosed     -- `HealthState` under the out-of-domain oracle stream in which `uniform(0, 1)`
+                     -- may return exactly 0.0 (finding K4); outside the domain of the C03 theorems
 
 /-- one component's `reset` -/
 def applyComp : StateComp → World → Tape → Except GErr (World × Tape)
@@ -18,6 +20,7 @@ def applyComp : StateComp → World → Tape → Except GErr (World × Tape)
   | .health, w, t => .ok (w.healthReset t)
   | .ammo, w, t => .ok (w.ammoReset, t)
   | .orient, w, t => .ok (w.orientReset t)
+  | .healthClosed, w, t => .ok (w.healthReset t true)
 
 /-- `SmartGridWorldSimulation.reset`: every state component once, in the (unspecified) iteration
 order of the Python set -/
